@@ -355,6 +355,17 @@ func GenRule(ch *core.Chooser, k int, hosts []string, prev []string) string {
 			return "~" + h + "##" + pick(ch, "rule.sel", selectors)
 		}
 	case KCosmeticException:
+		// mostly the exception of an element-hiding rule that is already in
+		// the list (same selector), so that exceptions actually bite
+		var sels []string
+		for _, p := range prev {
+			if i := strings.Index(p, "##"); i >= 0 && !strings.HasPrefix(p, "!") && !strings.HasPrefix(p, "#") && !strings.Contains(p, " ") {
+				sels = append(sels, p[i+2:])
+			}
+		}
+		if len(sels) > 0 && ch.Intn("rule.exctwin", 4) != 0 {
+			return h + "#@#" + sels[ch.Intn("rule.excsel", len(sels))]
+		}
 		return h + "#@#" + pick(ch, "rule.sel", selectors)
 	case KComment:
 		return []string{"! comment " + h, "# comment", "#"}[ch.Intn("rule.comment", 3)]
